@@ -267,11 +267,32 @@ def tmgrsched_part(ctx, rp):
     ctx.obligation('client-side scheduler under %d callback scripts with pilot-bound tasks arriving before their pilot: every task is handed on' % n, 'tie', True, '')
 
 
+def agentsched_part(ctx, rp):
+    """the agent scheduler between input staging and the executor: scripts of the real scheduling loop (several
+    priorities in one drain, tasks that have to wait, cancels while waiting); a task is handed on, failed or
+    canceled once - never started twice, never started after it was canceled"""
+    import schedlib
+    n = 0
+    for i in range(ctx.n(60, 2500)):
+        sc = schedlib.fill_releases(rp, schedlib.gen_script(ctx.rng, app_slots=False, small=True))
+        for it in sc['iters']:
+            if it['unsched'] == 'auto': it['unsched'] = []
+        s, out, tasks, crash = schedlib.run_script(rp, sc)
+        n += 1
+        prios = set(r['prio'] for it in sc['iters'] for m in it['incoming'] for r in m.get('sched', []))
+        ctx.case({'agent_sched': schedlib.model_op(sc)}, nontrivial=len(prios) > 1)
+        for p, sig, what in schedlib.monitor(rp, sc, out, tasks, crash, ['C04']):
+            if sig in ('reported-twice', 'task-in-two-places', 'task-lost', 'scheduler-loop-died'):
+                ctx.fail('agent-scheduler:' + sig, what, {'kind': 'agentsched', 'script': sc})
+    ctx.obligation('agent scheduler under %d loop scripts: every task is handed on, failed or canceled once' % n, 'tie', True, '')
+
+
 def run(ctx):
     rp  = rpload.load()
     rng = ctx.rng
     exec_part(ctx, rp)
     tmgrsched_part(ctx, rp)
+    agentsched_part(ctx, rp)
     ops, impl = [], []
     dist = {'bulks': 0, 'tasks': 0, 'final': {}, 'faulty': 0}
     bulks = [list(b) for b in CORPUS] + [[gen_plan(rng) for _ in range(rng.choice([1, 2, 3, 5]))] for _ in range(ctx.n(45, 2000))]
@@ -363,6 +384,14 @@ def replay(ctx, data):
         bad = exec_monitor(done, obs, rec, quiet)
         print(obs[-1] if obs else None, bad)
         return bad is None
+    if i['kind'] == 'agentsched':
+        import schedlib
+        s, out, tasks, crash = schedlib.run_script(rp, i['script'])
+        v = [x for x in schedlib.monitor(rp, i['script'], out, tasks, crash, ['C04'])
+             if x[1] in ('reported-twice', 'task-in-two-places', 'task-lost', 'scheduler-loop-died')]
+        for o in out: print(o['events'])
+        print(v)
+        return not v
     if i['kind'] == 'tmgrsched':
         from props import c12
         ops, res, bad = tmgrsched_monitor(c12, rp, i['sched'], i['ops'])
